@@ -144,6 +144,10 @@ def traverse_facts(ctx, cq):
         it = l.iter
         srt = isinstance(it, ast.Call) and C.is_ext_call(ctx, it, fn, ("builtins.sorted",)) and not it.keywords and len(it.args) == 1 \
             and isinstance(it.args[0], ast.Call) and C.is_ext_call(ctx, it.args[0], fn, ("os.listdir",)) and norm(it.args[0].args[0]) == p
+        if not srt:
+            # the listing may be walked by a helper generator that yields the entries of sorted(os.listdir(path))
+            sl = C.sorted_listing_generator(ctx, fn, it)
+            srt = sl is not None and norm(sl[0]) == p
         F["dir.order"] = Fact("sorted(os.listdir(path))" if srt else norm(it), it, fn)
         filt = [x for st in l.body for x in ast.walk(st) if isinstance(x, (ast.If, ast.Continue, ast.Break, ast.IfExp))]
         stores = [st for st in l.body if isinstance(st, ast.Assign) and isinstance(st.targets[0], ast.Subscript)]
